@@ -5,6 +5,7 @@ import sys
 import time
 from typing import Any, Callable, Dict, List, Optional, Tuple, Union
 from dataclasses import dataclass
+from decimal import ROUND_HALF_UP, Decimal, localcontext
 
 from .opcodes import OpCode
 from .compiler import CompiledFunction
@@ -44,35 +45,52 @@ from .errors import (
 from .regex import RegExpError, RegexStackOverflow, RegexTimeoutError
 
 
-def js_round(x: float, ndigits: int = 0) -> float:
-    """Round using JavaScript-style 'round half away from zero' instead of Python's 'round half to even'."""
-    if x != x or math.isinf(x):
-        return x  # NaN and the infinities round to themselves
-    if ndigits == 0:
-        if x >= 0:
-            return math.floor(x + 0.5)
-        else:
-            return math.ceil(x - 0.5)
-    else:
-        multiplier = 10**ndigits
-        scaled = x * multiplier
-        if scaled != scaled or math.isinf(scaled) or multiplier == 0:
-            return x  # already an integer far beyond 2**53
-        if x >= 0:
-            return math.floor(scaled + 0.5) / multiplier
-        else:
-            return math.ceil(scaled - 0.5) / multiplier
+def _nearest_multiple(abs_n: float, exponent: int) -> int:
+    """The integer k for which k * 10**exponent is nearest to abs_n; of two that
+    are equally near, the larger (what toFixed, toExponential and toPrecision
+    ask for). Computed on the exact value of the double: 1.45 is
+    1.4499999999999999555..., which is nearer to 1.4 than to 1.5.
+    """
+    with localcontext() as exact:
+        # a double has at most 767 significant decimal digits, and up to 100
+        # more places can be asked for
+        exact.prec = 1500
+        scaled = Decimal(abs_n).scaleb(-exponent)
+        return int(scaled.quantize(Decimal(1), rounding=ROUND_HALF_UP))
 
 
-def _scale_mantissa(abs_n: float, exp: int) -> float:
-    """abs_n / 10**exp; for subnormal numbers 10**exp underflows to zero."""
-    if exp < -300:
-        abs_n = abs_n * 1e300
-        exp = exp + 300
-    divisor = 10**exp
-    if divisor == 0:
-        return 0.0  # not reachable for the exponent of a float (>= -324)
-    return abs_n / divisor
+def _decimal_exponent(abs_n: float) -> int:
+    """e with 10**e <= abs_n < 10**(e + 1), for a finite abs_n > 0 (exact)."""
+    return Decimal(abs_n).adjusted()
+
+
+def _rounded_digits(abs_n: float, count: int) -> Tuple[str, int]:
+    """abs_n (finite, > 0) as `count` significant digits and the decimal
+    exponent of the first one."""
+    exponent = _decimal_exponent(abs_n)
+    k = _nearest_multiple(abs_n, exponent - count + 1)
+    if k >= 10**count:
+        # 9.96 to two digits is 10: one more digit before the point
+        exponent += 1
+        k = _nearest_multiple(abs_n, exponent - count + 1)
+    return str(k), exponent
+
+
+def _shortest_digits(abs_n: float) -> Tuple[str, int]:
+    """The fewest significant digits that identify abs_n (finite, > 0) among the
+    doubles, and the decimal exponent of the first one."""
+    # repr() of a float is the shortest text that reads back as the same float
+    sign, digits, exponent = Decimal(repr(abs_n)).as_tuple()
+    text = "".join(map(str, digits)).lstrip("0")
+    stripped = text.rstrip("0")
+    exponent += len(text) - len(stripped)
+    return stripped, exponent + len(stripped) - 1
+
+
+def _exponential_text(sign: str, digits: str, exponent: int) -> str:
+    """d.ddde+x from the significant digits and the exponent of the first."""
+    mantissa = digits[0] + ("." + digits[1:] if len(digits) > 1 else "")
+    return f"{sign}{mantissa}e{'+' if exponent >= 0 else '-'}{abs(exponent)}"
 
 
 def expand_replacement(
@@ -1951,14 +1969,12 @@ class VM:
                 raise JSRangeError("toFixed() digits out of range")
             if n != n or math.isinf(n) or abs(n) >= 1e21:
                 return to_string(n)
-            # Use JavaScript-style rounding (round half away from zero)
-            rounded = js_round(n, digits)
-            result = f"{rounded:.{digits}f}"
-            # Handle negative zero: if n was negative but rounded to 0, keep the sign
-            if n < 0 or (n == 0 and math.copysign(1, n) == -1):
-                if rounded == 0:
-                    result = "-" + result.lstrip("-")
-            return result
+            # -0 is not less than zero: it prints as 0
+            sign = "-" if n < 0 else ""
+            text = str(_nearest_multiple(abs(n), -digits)).rjust(digits + 1, "0")
+            if digits:
+                text = text[:-digits] + "." + text[-digits:]
+            return sign + text
 
         def toString(*args):
             radix = to_integer(args[0], 10) if args else 10
@@ -1974,8 +1990,6 @@ class VM:
             return self._number_to_base(n, radix)
 
         def toExponential(*args):
-            import math
-
             if args and args[0] is not UNDEFINED:
                 digits = to_integer(args[0])
             else:
@@ -1985,56 +1999,29 @@ class VM:
                 return "NaN"
             if math.isinf(n):
                 return "-Infinity" if n < 0 else "Infinity"
+            if digits is not None and (digits < 0 or digits > 100):
+                raise JSRangeError("toExponential() digits out of range")
 
+            if n == 0:
+                return _exponential_text("", "0" * ((digits or 0) + 1), 0)
+            sign = "-" if n < 0 else ""
             if digits is None:
-                # Default precision - minimal representation
-                # Use repr-style formatting and convert to exponential
-                if n == 0:
-                    return "0e+0"
-                sign = "-" if n < 0 else ""
-                abs_n = abs(n)
-                exp = int(math.floor(math.log10(abs_n)))
-                mantissa = _scale_mantissa(abs_n, exp)
-                # Format mantissa without trailing zeros
-                mantissa_str = f"{mantissa:.15g}".rstrip("0").rstrip(".")
-                exp_sign = "+" if exp >= 0 else ""
-                return f"{sign}{mantissa_str}e{exp_sign}{exp}"
-            else:
-                if digits < 0 or digits > 100:
-                    raise JSRangeError("toExponential() digits out of range")
-                # Round to specified digits
-                if n == 0:
-                    return "0" + ("." + "0" * digits if digits > 0 else "") + "e+0"
-                sign = "-" if n < 0 else ""
-                abs_n = abs(n)
-                exp = int(math.floor(math.log10(abs_n)))
-                mantissa = _scale_mantissa(abs_n, exp)
-                # Round mantissa to specified digits using JS-style rounding
-                rounded = js_round(mantissa, digits)
-                if rounded >= 10:
-                    rounded /= 10
-                    exp += 1
-                if digits == 0:
-                    mantissa_str = str(int(js_round(rounded)))
-                else:
-                    mantissa_str = f"{rounded:.{digits}f}"
-                exp_sign = "+" if exp >= 0 else ""
-                return f"{sign}{mantissa_str}e{exp_sign}{exp}"
+                # As many digits as it takes to tell this number from the others
+                return _exponential_text(sign, *_shortest_digits(abs(n)))
+            return _exponential_text(sign, *_rounded_digits(abs(n), digits + 1))
 
         def toPrecision(*args):
-            import math
-
             if not args or args[0] is UNDEFINED:
                 return to_string(n)
 
             precision = to_integer(args[0])
-            if precision < 1 or precision > 100:
-                raise JSRangeError("toPrecision() precision out of range")
 
             if math.isnan(n):
                 return "NaN"
             if math.isinf(n):
                 return "-Infinity" if n < 0 else "Infinity"
+            if precision < 1 or precision > 100:
+                raise JSRangeError("toPrecision() precision out of range")
 
             if n == 0:
                 if precision == 1:
@@ -2042,34 +2029,16 @@ class VM:
                 return "0." + "0" * (precision - 1)
 
             sign = "-" if n < 0 else ""
-            abs_n = abs(n)
-            exp = int(math.floor(math.log10(abs_n)))
+            digits, exp = _rounded_digits(abs(n), precision)
 
             # Decide if we use exponential or fixed notation
             if exp < -6 or exp >= precision:
-                # Use exponential notation
-                mantissa = _scale_mantissa(abs_n, exp)
-                rounded = js_round(mantissa, precision - 1)
-                if rounded >= 10:
-                    rounded /= 10
-                    exp += 1
-                if precision == 1:
-                    mantissa_str = str(int(js_round(rounded)))
-                else:
-                    mantissa_str = f"{rounded:.{precision - 1}f}"
-                exp_sign = "+" if exp >= 0 else ""
-                return f"{sign}{mantissa_str}e{exp_sign}{exp}"
-            else:
-                # Use fixed notation
-                # Calculate digits after decimal
-                if exp >= 0:
-                    decimal_places = max(0, precision - exp - 1)
-                else:
-                    decimal_places = precision - 1 - exp
-                rounded = js_round(abs_n, decimal_places)
-                if decimal_places <= 0:
-                    return f"{sign}{int(rounded)}"
-                return f"{sign}{rounded:.{decimal_places}f}"
+                return _exponential_text(sign, digits, exp)
+            if exp == precision - 1:
+                return sign + digits
+            if exp >= 0:
+                return f"{sign}{digits[: exp + 1]}.{digits[exp + 1 :]}"
+            return f"{sign}0.{'0' * (-exp - 1)}{digits}"
 
         def valueOf(*args):
             return n
